@@ -20,6 +20,7 @@ Run: lake env lean --run FaxVerif/C13/Driver.lean
 -/
 import Lean.Data.Json
 import FaxVerif.C13.Spec
+import FaxVerif.C13.Text
 open Lean FaxVerif.C13
 
 /-- −0.0 and +0.0 are the same number for Python's `==` (and no operator of the subset tells them apart where Python
@@ -146,93 +147,26 @@ structure LeafInfo where
   `ty` is then what it *declared* the value as -/
   uns : Bool := false
 
-def isIdChar (c : Char) : Bool := c.isAlphanum || c == '_'
-
-def dropPrefix? (s : List Char) (p : String) : Option (List Char) :=
-  let pl := p.toList
-  if pl.isPrefixOf s then some (s.drop pl.length) else none
-
-def opTokens : List String := ["<=", ">=", "==", "!=", "<", ">", "+", "-", "*", "/", "%", "&&", "||", "^", "&", "|"]
-
-partial def parseCE (leaves : List LeafInfo) (s : List Char) : Option (CE × List Char) :=
-  -- leaves first (longest text first, whole token)
-  let tryLeaf := leaves.findSome? fun l =>
-    match dropPrefix? s l.text with
-    | some rest =>
-      let lastIsId := match l.text.toList.getLast? with | some c => isIdChar c | none => false
-      match rest with
-      | c :: _ => if lastIsId && (isIdChar c || c == '.') then none else some (CE.leaf l.ty l.text l.slot, rest)
-      | [] => some (CE.leaf l.ty l.text l.slot, rest)
-    | none => none
-  match tryLeaf with
-  | some r => some r
-  | none =>
-    if let some rest := dropPrefix? s "static_cast<" then
-      let tyName := String.ofList (rest.takeWhile (· != '>'))
-      match ctOf tyName, dropPrefix? (rest.dropWhile (· != '>')) ">(" with
-      | .ok t, some r2 =>
-        match parseCE leaves r2 with
-        | some (e, r3) => match dropPrefix? r3 ")" with | some r4 => some (.cast t e, r4) | none => none
-        | none => none
-      | _, _ => none
-    else if let some rest := dropPrefix? s "std::pow(" then
-      match parseCE leaves rest with
-      | some (a, r1) =>
-        match dropPrefix? r1 ", " with
-        | some r2 =>
-          match parseCE leaves r2 with
-          | some (b, r3) => match dropPrefix? r3 ")" with | some r4 => some (.pow a b, r4) | none => none
-          | none => none
-        | none => none
-      | none => none
-    else if let some rest := dropPrefix? s "true" then some (.blit true, rest)
-    else if let some rest := dropPrefix? s "false" then some (.blit false, rest)
-    else match s with
-      | '(' :: rest =>
-        -- unary: "(" op "(" e "))"
-        let un := ["+", "-", "!", "~"].findSome? fun u =>
-          match dropPrefix? rest (u ++ "(") with
-          | some r1 =>
-            match parseCE leaves r1 with
-            | some (e, r2) => match dropPrefix? r2 "))" with | some r3 => some (CE.un u e, r3) | none => none
-            | none => none
-          | none => none
-        match un with
-        | some r => some r
-        | none =>
-          match parseCE leaves rest with
-          | some (l, r1) =>
-            -- a negative constant in parentheses: "(-5)"
-            match l, r1 with
-            | .ilit n, ')' :: r2 => if n < 0 then some (.ilit n, r2) else none
-            | _, _ =>
-            opTokens.findSome? fun o =>
-              match dropPrefix? r1 o with
-              | some r2 =>
-                match parseCE leaves r2 with
-                | some (r, r3) => match dropPrefix? r3 ")" with | some r4 => some (CE.bin o l r, r4) | none => none
-                | none => none
-              | none => none
-          | none => none
-      | _ =>
-        -- integer literal
-        let (neg, ds) := match s with | '-' :: t => (true, t) | _ => (false, s)
-        let digits := ds.takeWhile Char.isDigit
-        if digits.isEmpty then none
-        else
-          let rest := ds.drop digits.length
-          match rest with
-          | '.' :: _ => none
-          | 'e' :: _ => none
-          | _ =>
-            let n : Int := (String.ofList digits).toNat!
-            some (.ilit (if neg then -n else n), rest)
+/-- The text is read the way a C++ compiler reads it (`readCpp`, Text.lean: maximal-munch tokens, C++ precedence).
+`ill`: the text is not the expression somebody meant (a `--` token where two signs were meant, a syntax error) — it
+is given a meaning without value (`evalC … = none`: ill-formed C++), the reason is kept in the operator text.
+`unk`: outside the subset the reader knows — no verdict. -/
+def illPrefix : String := "ill-formed: "
 
 def parseText (leaves : List LeafInfo) (t : String) : Except String CE :=
-  match parseCE leaves t.toList with
-  | some (e, []) => pure e
-  | some (_, rest) => throw s!"trailing text '{String.ofList rest}' in '{t}'"
-  | none => throw s!"cannot parse '{t}'"
+  match readCpp (leaves.map fun l => (l.ty, l.text, l.slot)) t with
+  | .ok e => pure e
+  | .ill w => pure (.un (illPrefix ++ w ++ " in '" ++ t ++ "'") (.ilit 0))
+  | .unk w => throw s!"cannot read '{t}': {w}"
+
+def FaxVerif.C13.CE.illNote : CE → Option String
+  | .leaf _ _ _ => none
+  | .ilit _ => none
+  | .blit _ => none
+  | .bin _ l r => match l.illNote with | some w => some w | none => r.illNote
+  | .cast _ e => e.illNote
+  | .pow l r => match l.illNote with | some w => some w | none => r.illNote
+  | .un op e => if op.startsWith illPrefix then some op else e.illNote
 
 def leavesOf (j : Json) : Except String (List LeafInfo) := do
   let a ← j.getArr?
@@ -251,12 +185,15 @@ inductive FormE
   | plain (e : Expr)
   | cond (t a b : Expr)
   | agg (seed : Expr) (u : Upd)
+  /-- a conditional used INSIDE arithmetic: `body` refers to the value of `a if t else b` through the operand in slot `ifSlot` -/
+  | condx (t a b body : Expr)
 
 def formOf (j : Json) : Except String FormE := do
   match ← (← j.getObjVal? "form").getStr? with
   | "plain" => return .plain (← exprOf (← j.getObjVal? "e"))
   | "cond" => return .cond (← exprOf (← j.getObjVal? "t")) (← exprOf (← j.getObjVal? "a")) (← exprOf (← j.getObjVal? "b"))
   | "agg" => return .agg (← exprOf (← j.getObjVal? "seed")) (← updOf (← j.getObjVal? "upd"))
+  | "condx" => return .condx (← exprOf (← j.getObjVal? "t")) (← exprOf (← j.getObjVal? "a")) (← exprOf (← j.getObjVal? "b")) (← exprOf (← j.getObjVal? "body"))
   | f => throw s!"unknown form {f}"
 
 def ifSlot : Nat := 99
@@ -265,18 +202,35 @@ def accName : String := "A"
 
 def jstrs (l : List String) : Json := Json.arr (l.map Json.str).toArray
 
+/-- the hypotheses of theorem `text_denotes` / `text_read`, evaluated on the operand texts at hand (`noBoolNames` is
+defined beside the proofs: spelled out here) -/
+def operandsUsable (es : List CE) : Bool :=
+  let ls := es.flatMap CE.leaves
+  (ls.all fun l => atomOk l.2.1) && leavesConsistent ls
+    && (ls.all fun l => atomTree l.2.1 != some (.id "true".toList) && atomTree l.2.1 != some (.id "false".toList))
+
+/-- the trees of a list of emitted expressions, in normal form, as text -/
+def treesOf (es : List CE) : Json := jstrs (es.map fun e => e.norm.render)
+
+def withTrees (es : List CE) (j : List (String × Json)) : Json :=
+  Json.mkObj (j ++ [("trees", treesOf es), ("operandsUsable", operandsUsable es),
+    -- the theorem's conclusion, re-run on the model's own text
+    ("readsBack", es.all fun e => match readCpp (es.flatMap CE.leaves) e.render with | .ok c => c == e.norm | _ => false)])
+
+def condCEs (o : CondOut) : List CE := [o.test.ce, o.thenRhs, o.elseRhs]
+
 def emitForm (f : FormE) : Json :=
   let err (e : Refusal) := Json.mkObj [("err", e.name)]
   match f with
   | .plain e =>
     match translate e with
-    | .ok r => Json.mkObj [("ok", Json.mkObj [("ty", r.ty.name), ("lines", jstrs [r.ce.render])])]
+    | .ok r => withTrees [r.ce] [("ok", Json.mkObj [("ty", r.ty.name), ("lines", jstrs [r.ce.render])])]
     | .error x => err x
   | .cond t a b =>
     match translate t, translate a, translate b with
     | .ok tr, .ok ar, .ok br =>
       let o := emitCond ifName ifSlot tr ar br
-      Json.mkObj [("ok", Json.mkObj [("ty", o.result.ty.name), ("lines", jstrs (condLines ifName o))])]
+      withTrees (condCEs o) [("ok", Json.mkObj [("ty", o.result.ty.name), ("lines", jstrs (condLines ifName o))])]
     | .error x, _, _ => err x
     | _, .error x, _ => err x
     | _, _, .error x => err x
@@ -285,8 +239,18 @@ def emitForm (f : FormE) : Json :=
     | .error x => err x
     | .ok sr =>
       match emitAgg ifName ifSlot sr u with
-      | .ok o => Json.mkObj [("ok", Json.mkObj [("ty", o.accTy.name), ("lines", jstrs (aggLines accName ifName o))])]
+      | .ok o => withTrees ([o.seed] ++ (match o.cond with | some c => condCEs c | none => []) ++ [o.updRhs])
+          [("ok", Json.mkObj [("ty", o.accTy.name), ("lines", jstrs (aggLines accName ifName o))])]
       | .error x => err x
+  | .condx t a b body =>
+    match translate t, translate a, translate b, translate (body.retypeAt ifSlot condResultType) with
+    | .ok tr, .ok ar, .ok br, .ok r =>
+      let o := emitCond ifName ifSlot tr ar br
+      withTrees (condCEs o ++ [r.ce]) [("ok", Json.mkObj [("ty", r.ty.name), ("lines", jstrs (condLines ifName o ++ [r.ce.render]))])]
+    | .error x, _, _, _ => err x
+    | _, .error x, _, _ => err x
+    | _, _, .error x, _ => err x
+    | _, _, _, .error x => err x
 
 /-! ### the Spec, evaluated on the implementation's output -/
 
@@ -349,6 +313,20 @@ def factsOf : FormE → FormFacts
                       -- an integer-valued fold that goes through the always-double conditional (exclusion E)
                       | .condIn _ _ _ _ _ => k != .float
                       | .plain _ => false) }
+  | .condx _ _ _ _ => { kind := .float, width := 2, mustAccept := false, excluded := true }   -- see factsOfAll
+
+def factsOfCondx (t a b body : Expr) : FormFacts :=
+  let ck := condKind a b
+  let cw := condWidth a b
+  { kind := (body.retypeAt ifSlot (match ck with | .float => .double | _ => .int)).pyKind true,
+    width := (body.retypeAt ifSlot (match cw with | 0 => .int | 1 => .float | _ => .double)).width,
+    mustAccept := t.mustAccept && a.mustAccept && b.mustAccept && (body.retypeAt ifSlot .double).mustAccept,
+    -- integer-valued arms go through the always-double result variable (exclusion E)
+    excluded := !(t.noDefect && a.noDefect && b.noDefect && (body.retypeAt ifSlot .double).noDefect) || condIntegral a b }
+
+def factsOfAll : FormE → FormFacts
+  | .condx t a b body => factsOfCondx t a b body
+  | f => factsOf f
 
 def modNonnegForm (f : FormE) (envs : List (Env F)) : Bool :=
   match f, envs with
@@ -365,6 +343,12 @@ def refValue (rp : Bool) (f : FormE) (envs : List (Env F)) : Option (PV F) :=
     match evalPy rp base seed with
     | some s => runAggPy rp u s elems
     | none => none
+  | .condx t a b body, [env] =>
+    match evalCondPy rp env t a b with
+    | none => none
+    | some r =>
+      let env2 : Env F := fun i => if i = ifSlot then ⟨r.toI, r.toF, r.truthy⟩ else env i
+      evalPy rp env2 (body.retypeAt ifSlot r.ct)
   | _, _ => none
 
 /-- the implementation's emitted code, parsed -/
@@ -372,6 +356,7 @@ inductive ImplCode
   | plain (ty : CT) (e : CE)
   | cond (ty : CT) (c : CondOut)
   | agg (o : AggOut)
+  | condx (ty : CT) (c : CondOut) (body : CE)
 
 def implOf (leaves : List LeafInfo) (f : FormE) (j : Json) : Except String ImplCode := do
   let ty ← ctOf (← (← j.getObjVal? "ty").getStr?)
@@ -383,6 +368,7 @@ def implOf (leaves : List LeafInfo) (f : FormE) (j : Json) : Except String ImplC
   match f with
   | .plain _ => return .plain ty (← txt "expr")
   | .cond _ _ _ => return .cond ty (← condOut)
+  | .condx _ _ _ _ => return .condx ty (← condOut) (← txt "expr")
   | .agg _ _ =>
     let accTy ← ctOf (← (← j.getObjVal? "accTy").getStr?)
     let c ← match j.getObjVal? "test" with
@@ -401,10 +387,28 @@ def runImpl (uns : Nat → Bool) (anyUns : Bool) (c : ImplCode) (envs : List (En
     match initAggC o base with
     | some a => runAggC ifSlot o a elems
     | none => none
+  | .condx ty o body, [env] =>
+    match evalCondX uns env o with
+    | none => none
+    | some r =>
+      let env2 : Env F := fun i => if i = ifSlot then ⟨r.toI, r.toD, r.truthy⟩ else env i
+      storeX uns env2 ty body
   | _, _ => none
 
+def ImplCode.ces : ImplCode → List CE
+  | .plain _ e => [e]
+  | .cond _ c => condCEs c
+  | .condx _ c b => condCEs c ++ [b]
+  | .agg o => [o.seed] ++ (match o.cond with | some c => condCEs c | none => []) ++ [o.updRhs]
+
 def implTy : ImplCode → CT
-  | .plain ty _ => ty | .cond ty _ => ty | .agg o => o.accTy
+  | .plain ty _ => ty | .cond ty _ => ty | .agg o => o.accTy | .condx ty _ _ => ty
+
+def ImplCode.illNote : ImplCode → Option String
+  | .plain _ e => e.illNote
+  | .cond _ c => [c.test.ce, c.thenRhs, c.elseRhs].findSome? CE.illNote
+  | .condx _ c b => [c.test.ce, c.thenRhs, c.elseRhs, b].findSome? CE.illNote
+  | .agg o => ([o.seed, o.updRhs] ++ (match o.cond with | some c => [c.test.ce, c.thenRhs, c.elseRhs] | none => [])).findSome? CE.illNote
 
 /-- the model's own prediction of the stored value (for the tie with the compiled job) -/
 def runModel (f : FormE) (envs : List (Env F)) : Option (CV F) :=
@@ -427,6 +431,15 @@ def runModel (f : FormE) (envs : List (Env F)) : Option (CV F) :=
         | none => none
       | .error _ => none
     | .error _ => none
+  | .condx t a b body, [env] =>
+    match translate t, translate a, translate b, translate (body.retypeAt ifSlot condResultType) with
+    | .ok tr, .ok ar, .ok br, .ok r =>
+      match evalCondC env (emitCond ifName ifSlot tr ar br) with
+      | none => none
+      | some v =>
+        let env2 : Env F := fun i => if i = ifSlot then ⟨v.toI, v.toD, v.truthy⟩ else env i
+        (evalC env2 r.ce).map (convert r.ty)
+    | _, _, _, _ => none
   | _, _ => none
 
 def sampleEnvs (f : FormE) (j : Json) : Except String (List (Env F)) := do
@@ -436,7 +449,7 @@ def sampleEnvs (f : FormE) (j : Json) : Except String (List (Env F)) := do
 
 def specOn (j : Json) : Except String Json := do
   let f ← formOf j
-  let facts := factsOf f
+  let facts := factsOfAll f
   let impl ← j.getObjVal? "impl"
   if let .ok cls := impl.getObjVal? "err" then
     let cls ← cls.getStr?
@@ -467,6 +480,7 @@ def specOn (j : Json) : Except String Json := do
     | .plain e => some (e.pyKind false)
     | .cond _ a b => some (condKindR false a b)
     | .agg seed u => some (aggKind seed u false).1
+    | .condx _ a b body => some ((body.retypeAt ifSlot (match condKindR false a b with | .float => .double | _ => .int)).pyKind false)
   let mut altOk : Bool := match altKind with | some k => kindOk declared k facts.width | none => false
   let mut idx := 0
   for s in samples do
@@ -504,7 +518,8 @@ def specOn (j : Json) : Except String Json := do
             | .error e, none => if holds != some false then holds := none; why := s!"emitted text not interpretable: {e}"
             | _, _ =>
               valueBad := true; holds := some false
-              why := s!"sample {idx}: the emitted code has no value (ill-formed C++ or undefined behaviour) where Python computes {(pvJson p).compress}" ++ (if kindBad then "; " ++ kindWhy else "")
+              let note := match code with | .ok cd => (match cd.illNote with | some w => " [" ++ w ++ "]" | none => "") | .error _ => ""
+              why := s!"sample {idx}: the emitted code has no value (ill-formed C++ or undefined behaviour) where Python computes {(pvJson p).compress}" ++ note ++ (if kindBad then "; " ++ kindWhy else "")
         | some cv =>
           if !(decide (ColOk declared facts.kind facts.width cv p)) && !valueBad && (!(decide (numEq cv p)) || cv.ctype != declared) then
             valueBad := true; holds := some false
@@ -515,7 +530,8 @@ def specOn (j : Json) : Except String Json := do
     why := "accepted under CPython's reading of ** (int ** non-negative int is an int): " ++ why
   return Json.mkObj [("holds", match holds with | some b => Json.bool b | none => Json.null), ("why", why),
     ("mustAccept", facts.mustAccept), ("excluded", facts.excluded), ("rows", Json.arr rows),
-    ("kind", toString (repr facts.kind)), ("width", facts.width)]
+    ("kind", toString (repr facts.kind)), ("width", facts.width),
+    ("trees", match code with | .ok c => (match c.illNote with | none => treesOf c.ces | some _ => Json.null) | .error _ => Json.null)]
 
 def handle (line : String) : String :=
   match Json.parse line with
@@ -526,7 +542,7 @@ def handle (line : String) : String :=
       if op == "emit" then pure (emitForm (← formOf j))
       else if op == "spec" then specOn j
       else if op == "facts" then
-        let f := factsOf (← formOf j)
+        let f := factsOfAll (← formOf j)
         pure (Json.mkObj [("mustAccept", f.mustAccept), ("excluded", f.excluded), ("kind", toString (repr f.kind)), ("width", f.width)])
       else throw s!"unknown op {op}"
     match r with
